@@ -288,6 +288,57 @@ def check_timeouts(chk, quick):
                                law="an execution running longer than the machine's TimeoutSeconds fails with States.Timeout that no Retry or Catch intercepts, at exactly that instant")
                 s.close()
 
+    # the Task's own deadline and the execution's: whichever comes first decides, and when they coincide (the Task is the
+    # start state with the machine's TimeoutSeconds, or entered-offset + Task timeout = machine timeout) it is the
+    # execution's — not interceptable; a strictly earlier Task deadline is the Task's (retriable / catchable), after
+    # which the execution's deadline still holds
+    for etmo in (2, 4):
+        for shape, offset, ttmo in (("equal", 0, etmo), ("offset-equal", 1, etmo - 1), ("task-later", 0, etmo + 1),
+                                    ("task-earlier", 0, etmo - 1), ("offset-task-earlier", 1, etmo - 2 if etmo > 2 else None)):
+            if ttmo is None:
+                continue
+            for handler in ("none", "catch-all", "catch-timeout", "retry-all", "retry-taskfailed"):
+                t = T("f", TimeoutSeconds=ttmo)
+                t["End"] = True
+                if handler == "catch-all":
+                    t["Catch"] = [{"ErrorEquals": ["States.ALL"], "Next": "C"}]
+                if handler == "catch-timeout":
+                    t["Catch"] = [{"ErrorEquals": ["States.Timeout"], "Next": "C"}]
+                if handler == "retry-all":
+                    t["Retry"] = [{"ErrorEquals": ["States.ALL"], "IntervalSeconds": 1, "MaxAttempts": 2}]
+                if handler == "retry-taskfailed":
+                    t["Retry"] = [{"ErrorEquals": ["States.TaskFailed"], "IntervalSeconds": 1, "MaxAttempts": 2}]
+                states = {"T": t, "C": {"Type": "Pass", "Result": "caught", "End": True}}
+                start = "T"
+                if offset:
+                    states["W"] = {"Type": "Wait", "Seconds": offset, "Next": "T"}
+                    start = "W"
+                m = {"TimeoutSeconds": etmo, "StartAt": start, "States": states}
+                s, ea = run_task(m, (etmo + 9) * 1000)           # the worker answers long after every deadline
+                fv = explore.final_view(s, ea)
+                tt = term_time(s, ea)
+                case = {"kind": "task-vs-execution-timeout", "TimeoutSeconds": etmo, "task_TimeoutSeconds": ttmo, "offset_s": offset,
+                        "shape": shape, "handler": handler, "machine": m}
+                chk.count(cj(case), True)
+                chk.dist("task_vs_exec_timeout.%s.%s" % (shape, handler))
+                task_first = offset + ttmo < etmo
+                if task_first and handler.startswith("catch"):
+                    exp = {"status": "SUCCEEDED", "error": None, "t": (offset + ttmo) * 1000}
+                else:
+                    # unhandled Task timeout: fails at the Task's deadline; retried: the next attempt runs into the execution's
+                    # deadline (in this engine `States.TaskFailed` in ErrorEquals matches every error name, States.Timeout
+                    # too — C07's model copies that, the property is silent on it)
+                    first = (offset + ttmo) if (task_first and not handler.startswith("retry")) else etmo
+                    exp = {"status": "FAILED", "error": "States.Timeout", "t": first * 1000}
+                got = {"status": fv.get("status"), "error": fv.get("error"), "t": tt}
+                if s.errors:
+                    chk.report("impl-violates-law", case, impl={"errors": s.errors[:1]}, law="no exception escapes a handler")
+                elif got != exp:
+                    chk.report("impl-violates-law", case, impl=got, model=exp,
+                               law="Task deadline vs execution deadline: the earlier one decides; the execution's (also when they coincide) "
+                                   "fails the execution with States.Timeout that no Retry or Catch intercepts, at exactly that instant")
+                s.close()
+
 
 def check_generated(chk, quick):
     """generated machines made to exercise the clock (machgen.timify: Task TimeoutSeconds with worker delays on both
@@ -313,7 +364,8 @@ def check_generated(chk, quick):
             chk.count(cj(case), False)
             continue
         m = json.loads(parts[1])
-        if m["status"] in ("FUEL", "UNSUPPORTED") or m.get("tieFail") or enginerun.oracle_order_ambiguous(m) or r.errors:
+        m = c01.settled_model(chk, m, c["machine"], c["input"], r.exec_arn, r.plans.oracle(), r.requests)
+        if m["status"] in ("FUEL", "UNSUPPORTED") or m.get("tieFail") or enginerun.oracle_order_ambiguous(m, r.requests, True) or r.errors:
             chk.dist("generated.not_compared.%s" % ("engine-error" if r.errors else m["status"] if m["status"] in ("FUEL", "UNSUPPORTED")
                                                     else "tie-or-order"))
             chk.count(cj(case), False)
@@ -325,8 +377,8 @@ def check_generated(chk, quick):
                        law="the execution ends (at the instant the reference semantics predicts)")
             continue
         mode, hp, nev = enginerun.compare_history(c["machine"], m, r.history, len(r.requests), timed=True,
-                                                  request_instants=[q["t"] for q in r.requests])
-        nmode, np_ = enginerun.compare_notifications(m, [x["body"]["detail"] for x in r.notifications], c["input"], timed=True)
+                                                  request_instants=[q["t"] for q in r.requests], requests=r.requests)
+        nmode, np_ = enginerun.compare_notifications(m, [x["body"]["detail"] for x in r.notifications], c["input"], timed=True, requests=r.requests)
         chk.dist("generated.%s" % mode)
         chk.dist("generated.%s.events" % mode, nev)
         if cj(c01.impl_view(r)) != cj(c01.model_view(m)):
